@@ -37,7 +37,8 @@ func (b *box) Peek(n int) ([]byte, error) {
 // Discard advances the reader. Is limited by the
 // constrains of the box.
 func (b *box) Discard(n int) (int, error) {
-	if b.remain >= n {
+	// a negative count is never a valid skip: it would pass the test below and enlarge the box
+	if n >= 0 && b.remain >= n {
 		b.remain -= n
 		if b.outer != nil {
 			return b.outer.Discard(n)
